@@ -522,6 +522,23 @@ func init() {
 				}
 			}
 		}
+		// sizes a message claims and the node allocates from before anything is authenticated are bounded above
+		maxParts := c.mustConst("types", "MaxBlockPartsCount")
+		maxVotes := c.mustConst("types", "MaxVotesCount")
+		for _, ub := range []struct {
+			typ, what, x string
+			max           int64
+		}{
+			{"ProposalMessage", "the part count the proposal claims", `m\.Proposal\.BlockID\.PartSetHeader\.Total`, maxParts},
+			{"NewValidBlockMessage", "the size of the part bit array", `m\.BlockParts\.Size\(\)`, maxParts},
+			{"ProposalPOLMessage", "the size of the POL bit array", `m\.ProposalPOL\.Size\(\)`, maxVotes},
+			{"VoteSetBitsMessage", "the size of the votes bit array", `m\.Votes\.Size\(\)`, maxVotes},
+		} {
+			if f := c.fn("consensus", ub.typ+".ValidateBasic"); f != nil {
+				g := guardCmp(ub.what+" is bounded", ub.x, "<=", fmt.Sprint(ub.max))
+				c.Check(c.ge().ensures(f, g, 2), funcKey(f)+" ensures "+g.Name, w.pos(f.Pos()), fmt.Sprintf("<= %d", ub.max), ub.typ+" is accepted whatever "+ub.what+" is: the node sizes allocations from it")
+			}
+		}
 		c.Check(nTypes >= 9, "consensus message types checked", "-", fmt.Sprintf("%d", nTypes), fmt.Sprintf("only %d message types found", nTypes))
 		// MsgFromProto hands out only validated messages? No: validation is the reactor's job (R5); but the
 		// WAL and the reactor must agree on the decoder: one decoder
